@@ -697,7 +697,8 @@ fn main() {
         "Parts xb/bin/adf/idf/tnd: buffers generated inside the representable domain (XBin 1..=4096 x 1..=200, one or two 256-glyph fonts of height 1..=32, \
          default or custom 6-bit palette, blink or iCE, raw or compressed, 512-character mode with a font page per cell; BIN even widths 2..=510 with SAUCE; ADF 80 columns iCE 8x16; \
          IDF 1..=80 columns iCE 8x16 incl. (0x01,0x00) marker cells; Tundra 1..=1000 columns with SAUCE, 1..=24 arbitrary RGB colours, characters 1..=6 in a third of the cases); \
-         heights 1..=200 below/at/above 25; cells = cyclic run list over the full byte range; lossles_output = true. Oracle per case: reference decode of the saved bytes = model; \
+         heights 1..=200 below/at/above 25; cells = cyclic run list over the full byte range; lossles_output = true; SAUCE trailer (where written): record only, or with 1 / 2 / 255 comment lines, \
+         or with title/author/group at maximal length, or both; 40% of the buffers get a storage shape of icyv::shape::perturb (extra lines, longer rows, larger layer, other terminal size, ...) that leaves the picture unchanged. Oracle per case: reference decode of the saved bytes = model; \
          load(save(buffer)) = buffer (size, per cell char / shown fg RGB / bg RGB / blink / glyph table of its font page, ice_mode, palette); load(save(load(file))) shows the same picture. \
          Parts *_fuzz: a saved small buffer mutated by 1..=4 byte/word/insert/delete/truncate/strip-SAUCE/append edits; files the loader rejects (or panics on: C02) are discarded; accepted files \
          are re-saved and re-loaded and must show the same picture. Non-trivial (generated): height != 25 or width != 80 or two font pages used or a character < 0x20 present; \
@@ -727,7 +728,7 @@ fn main() {
         }),
     );
 
-    let q = 20_000;
+    let q = 16_000;
     let t = 150_000;
     let cls = |m: &Model| m.fmt.ext().to_string();
     eng.generated_min(PartCfg::new("xb", q, t), || model::xb_models(false), check_model, cls, model::simpler);
@@ -736,7 +737,7 @@ fn main() {
     eng.generated_min(PartCfg::new("idf", q, t), || model::idf_models(false), check_model, cls, model::simpler);
     eng.generated_min(PartCfg::new("tnd", q, t), move || model::tnd_models(false, st), check_model, cls, model::simpler);
 
-    let fq = 16_000;
+    let fq = 14_000;
     let ft = 200_000;
     let fcls = |c: &FuzzCase| c.base.fmt.ext().to_string();
     eng.generated_min(PartCfg::new("xb_fuzz", fq, ft), || fuzz_cases(model::xb_models(true)), move |c: &FuzzCase| check_fuzz(c, st), fcls, simpler_fuzz);
